@@ -1,5 +1,7 @@
 import Hifi.Model.Views
 import Hifi.Drive.Dynamical
+import Hifi.Model.ViewsFloat
+import Hifi.Spec.ViewsFloat
 /-
   Driver handlers for C17.
 -/
@@ -46,6 +48,10 @@ def withinUlps (f : Float) (num den : Int) (floorNum : Int) (tolUlps : Nat) : Bo
     let lhs : Int := (m * (2 : Int) ^ (s + e).toNat * den - num * (2 : Int) ^ s)
     let rhs : Int := (tolUlps : Int) * (2 : Int) ^ (s + (lg - 52)).toNat * den
     decide (lhs.natAbs ≤ rhs.natAbs)
+
+/-- bit pattern of a hardware double as a SoftF64 value, and back -/
+def softOf (f : Float) : F64 := F64.ofBits f.toBits.toNat
+def sameBits (f : Float) (x : F64) : Bool := (if f.isNaN then F64.nan else softOf f) == x
 
 def unitNs : String → Option Int
   | "cy" => some 3155760000000000000 | "wk" => some 604800000000000 | "d" => some 86400000000000
@@ -123,13 +129,27 @@ def handle (op : String) (args : List String) (impl : Impl) : Option Ans :=
     let cands : List Int := if ts == TS.UTC then ((0 :: iersTbl.map (·.2)).map (fun l => i - l * 1000000000)).filter (fun v => denotes iersTbl "UTC" v i)
                             else (match scaleOff ts.name with | some o => [i - o] | none => [])
     let ins := ts == TS.UTC && e.ts != TS.UTC && inInserted iersTbl i
+    -- SoftF64 evaluation of the same accessor (Model/ViewsFloat.lean, the expression the C17 theorems are
+    -- about) must reproduce the hardware-Float evaluation bit for bit
+    let soft : Option F64 := do
+      let a ← Hifi.ViewsF.Acc.ofString? name
+      let x ← e.to ts
+      Hifi.ViewsF.accF a x.dur
+    let cross : Bool := match m, soft with
+      | some x, some y => sameBits x y
+      | none, _ => true
+      | _, none => false
+    -- the proved bound (Props/C17 `float_accessors_accuracy`): finite, exact sign, 8·2^-53·max(|exact|, 1 s)
+    let proved (f : Float) : Bool := cands.any (fun v => Hifi.Spec.toUnitOk 8 uns (v + c) (softOf f))
     let sp := if !fits || ins then noPanic impl else match impl with
       | .ok [r] => (match parseF? r with
-          | some f => verdict [("within_4_ulp", cands.any (fun v => withinUlps f (v + c) uns 1000000000 4))]
+          | some f => verdict [("within_4_ulp", cands.any (fun v => withinUlps f (v + c) uns 1000000000 4)),
+                               ("proved_bound", proved f), ("softf64_equals_hw", cross)]
           | none => "FAIL:decode")
       | .other w => "FAIL:" ++ w
       | _ => "FAIL:decode"
-    pure { model := (match m with | some x => "ok " ++ showF x | none => "unmodelled"), spec := sp, branch := "accf:" ++ name }
+    pure { model := (match m with | some x => "ok " ++ showF x | none => "unmodelled"), spec := sp,
+           branch := "accf:" ++ name ++ (if m.isSome then (if cross then ":softf64=hw" else ":softf64!=hw") else "") }
   | "from_mjd", [ts, x] | "from_jde", [ts, x] => do
     let ts ← TS.ofString? ts; let x ← parseF? x
     let shifted : Float := if op == "from_mjd" then x - 15020.0 else x - 15020.0 - 2400000.5
@@ -153,7 +173,11 @@ def handle (op : String) (args : List String) (impl : Impl) : Option Ans :=
             let exU : Int := (if ex ≥ exC then ex else exC) + 1
             -- two roundings: the subtraction and the product with 8.64e13 → 2 ulp
             let ulpNs2 : Int := 2 * (2 : Int) ^ (s + exU).toNat * 86400000000000
-            verdict [("scale", r.ts == ts), ("canonical", scanon r.dur), ("within_float_resolution", decide ((got2 - want2).natAbs ≤ (ulpNs2 + (2 : Int) ^ s).natAbs))]
+            -- SoftF64 evaluation of the constructor (Model/ViewsFloat.lean) against the hardware-Float model
+            let softD : Dur := if op == "from_mjd" then Hifi.ViewsF.fromMjdDur g (softOf x) else Hifi.ViewsF.fromJdeDur g (softOf x)
+            let cross : Bool := match m with | .ok e => e.dur == softD | _ => true
+            verdict [("scale", r.ts == ts), ("canonical", scanon r.dur), ("within_float_resolution", decide ((got2 - want2).natAbs ≤ (ulpNs2 + (2 : Int) ^ s).natAbs)),
+                     ("softf64_equals_hw", cross)]
           | _, _ => "FAIL:decode")
       | .other w, _ => "FAIL:" ++ w
       | _, _ => "FAIL:decode"
@@ -170,7 +194,9 @@ def handle (op : String) (args : List String) (impl : Impl) : Option Ans :=
             let want2 : Int := mx * (2 : Int) ^ (s + ex).toNat * fns + 2208988800 * 1000000000 * (2 : Int) ^ s
             let got2 : Int := sval r.dur * (2 : Int) ^ s
             let ulpNs2 : Int := (2 : Int) ^ (s + ex).toNat * fns
-            verdict [("scale", r.ts == TS.UTC), ("within_float_resolution", decide ((got2 - want2).natAbs ≤ (ulpNs2 + (2 : Int) ^ s).natAbs))]
+            let softD : Dur := if op == "from_unix_s" then Hifi.ViewsF.fromUnixSecondsDur (softOf x) else Hifi.ViewsF.fromUnixMillisecondsDur (softOf x)
+            verdict [("scale", r.ts == TS.UTC), ("within_float_resolution", decide ((got2 - want2).natAbs ≤ (ulpNs2 + (2 : Int) ^ s).natAbs)),
+                     ("softf64_equals_hw", m.dur == softD)]
           | none => "FAIL:decode")
       | .other w, _ => "FAIL:" ++ w
       | _, _ => "FAIL:decode"
